@@ -33,7 +33,7 @@ def extra(ctx, rep):
              "otherwise the emitted gate differs from the intended one by a sign and the rule no longer implements its operator exactly")
     sites = [s for s in modrule.scan_modulo_sites(ix, _decomp_module) if not _in_operator_method(s.func)]
     n_sites, n_sinks, n_proved = modrule.report_sites(ix, rep, RULE, sites)
-    rep.floor("angle reductions (% k*pi) in decomposition rules/helpers", n_sites, 1)
-    rep.floor("(reduction, gate parameter) sinks in decomposition rules/helpers", n_sinks, 1)
-    rep.floor("R-C10-mod sinks proved", n_proved, 1)
+    rep.floor("angle reductions (% k*pi) in decomposition rules/helpers", n_sites, 8)
+    rep.floor("(reduction, gate parameter) sinks in decomposition rules/helpers", n_sinks, 10)
+    rep.floor("R-C10-mod sinks proved", n_proved, 10)
     return rep
